@@ -12,10 +12,10 @@ def flat : List (Option (List α)) → List α
   | some r :: rest => flat rest ++ r
 
 theorem merge_perm (le : α → α → Bool) : ∀ p q : List α, (merge le p q).Perm (p ++ q)
-  | [], q => by simp [merge]
-  | x :: xs, [] => by simp [merge]
+  | [], q => by simp [merge_nil_left]
+  | x :: xs, [] => by simp [merge_nil_right]
   | x :: xs, y :: ys => by
-    unfold merge
+    rw [merge_cons_cons]
     split
     · exact (merge_perm le xs (y :: ys)).cons x
     · exact ((merge_perm le (x :: xs) ys).cons y).trans (List.perm_middle (a := y) (l₁ := x :: xs) (l₂ := ys)).symm
@@ -72,11 +72,11 @@ theorem mem_merge (le : α → α → Bool) (p q : List α) (z : α) : z ∈ mer
 
 theorem merge_sorted (le : α → α → Bool) (h : TotalPreorder le) :
     ∀ p q : List α, Sorted le p → Sorted le q → Sorted le (merge le p q)
-  | [], q => by intro _ hq; simpa [merge] using hq
-  | x :: xs, [] => by intro hp _; simpa [merge] using hp
+  | [], q => by intro _ hq; simpa [merge_nil_left] using hq
+  | x :: xs, [] => by intro hp _; simpa [merge_nil_right] using hp
   | x :: xs, y :: ys => by
     intro hp hq
-    unfold merge
+    rw [merge_cons_cons]
     have hp' := List.pairwise_cons.mp hp
     have hq' := List.pairwise_cons.mp hq
     split
@@ -145,12 +145,12 @@ theorem listSort_sorted (le : α → α → Bool) (h : TotalPreorder le) (l : Li
 theorem merge_filter (le : α → α → Bool) (h : TotalPreorder le) (c : α → Bool)
     (hc : ∀ a b, c a = true → c b = true → le a b = true) :
     ∀ p q : List α, Sorted le p → (merge le p q).filter c = p.filter c ++ q.filter c
-  | [], q => by intro _; simp [merge]
-  | x :: xs, [] => by intro _; simp [merge]
+  | [], q => by intro _; simp [merge_nil_left]
+  | x :: xs, [] => by intro _; simp [merge_nil_right]
   | x :: xs, y :: ys => by
     intro hp
     have hp' := List.pairwise_cons.mp hp
-    unfold merge
+    rw [merge_cons_cons]
     split
     · rw [List.filter_cons, merge_filter le h c hc xs (y :: ys) hp'.2, List.filter_cons (x := x) (xs := xs)]
       split <;> simp
